@@ -97,6 +97,21 @@ pub fn proc_tree_cpu_ms(pid: u32) -> Option<u64> {
 }
 
 /// CPU time of all children this process has waited for, in milliseconds.
+/// the scheduler state of a process ('R' running or waiting for a CPU, 'S' / 'D' sleeping, 'Z' dead ..), '?' when unknown
+pub fn proc_state(pid: u32) -> char {
+    std::fs::read_to_string(format!("/proc/{pid}/stat"))
+        .ok()
+        .and_then(|s| s.rsplit(')').next().and_then(|rest| rest.trim_start().chars().next()))
+        .unwrap_or('?')
+}
+
+/// how many processes want a CPU per CPU there is (1-minute load average / number of CPUs), at least 1
+pub fn overload() -> u64 {
+    let load = std::fs::read_to_string("/proc/loadavg").ok().and_then(|s| s.split_whitespace().next().and_then(|x| x.parse::<f64>().ok())).unwrap_or(1.0);
+    let cpus = std::thread::available_parallelism().map(|n| n.get()).unwrap_or(1) as f64;
+    (load / cpus).ceil().max(1.0) as u64
+}
+
 pub fn children_cpu_ms() -> u64 {
     let mut ru: libc::rusage = unsafe { std::mem::zeroed() };
     unsafe { libc::getrusage(libc::RUSAGE_CHILDREN, &mut ru) };
